@@ -63,6 +63,11 @@ def _check_history(case, strict):
         sync()
         tgt.audits[:] = [a for a in tgt.audits if a[0] != "C17"]
         seqs = []
+        if case.get("drops") and not strict:
+            # replies to some connected messages get lost (time-out, connection still usable): whatever the driver does next,
+            # the following message needs a fresh count
+            harness.CURRENT["drop"] = {harness.CURRENT["unit_sends"] + k for k in case["drops"]}
+            cls.add("reply-dropped")
         for op in case["ops"]:
             try:
                 if op["op"] == "generic":
@@ -162,6 +167,7 @@ def histories(draw):
         else:
             ops.append({"op": k})
     return {"pd": pd, "seeds": seeds, "cfg": cfg, "ops": ops, "offset": draw(st.one_of(st.integers(0, 60), st.integers(0, 400))),
+            "drops": draw(st.one_of(st.just([]), st.just([]), st.lists(st.integers(0, 25), min_size=1, max_size=3, unique=True))),
             "entropy": draw(st.sampled_from(["os", "os", "os", "min", "max"]))}
 
 
